@@ -277,6 +277,8 @@ class Run:
         seen_what = {}
         for what, ev in self.violations:
             seen_what.setdefault(what, []).append(ev)
+        write_ndjson(self.path("violations.ndjson"), [{"what": w, "event": e} for w, e in self.violations])
+        write_ndjson(self.path("deviations.ndjson"), [{"deviation": d, "event": e} for d, es in self.deviations.items() for e in es])
         for what, evs in seen_what.items():
             for ev in evs[:3]:
                 payload = {"property": self.pid, "what": what, "event": ev}
